@@ -41,9 +41,11 @@ def cvtRefIdx (name : String) : Nat :=
   let r2 := if endsW name " DmaI" then 1 else r1
   if endsW name "Cmpt Exec" then 3 else r2
 
-/-- `_match_opIds_from_event`: indices of the keywords contained in the name, ascending -/
+/-- `_match_opIds_from_event`: indices of the keywords contained in the name, ascending
+(`np.nonzero([key in name for key in op_keywords])`) -/
 def opIds (name : String) : List Nat :=
-  ([" DmaI", " Cmpt Prep", " Cmpt Exec", " DmaO"].zipIdx.filter (fun p => hasSub name p.1)).map (·.2)
+  (if hasSub name " DmaI" then [0] else []) ++ (if hasSub name " Cmpt Prep" then [1] else []) ++
+    (if hasSub name " Cmpt Exec" then [2] else []) ++ (if hasSub name " DmaO" then [3] else [])
 
 /-- `FlexEventMapToTS.__getitem__`: first key (insertion order) contained in the name -/
 def flexMap (name : String) : Option (Nat × Nat) :=
